@@ -47,7 +47,11 @@ type outcome struct {
 }
 
 func symInput(n int, constrained bool) []byte {
-	in := symBytes("in", n)
+	return symInputNamed("in", n, constrained)
+}
+
+func symInputNamed(name string, n int, constrained bool) []byte {
+	in := symBytes(name, n)
 	if constrained {
 		for i := range in {
 			symAssume(symInSet(in[i], symAlphabet))
@@ -366,6 +370,40 @@ func Harness_C08(n int) {
 	symReach("end")
 }
 ''' % ("\to := runReal(in)" if g.get("_optimized") else "\tmemo := symBool(\"memoize\")\n\to := runReal(in, Memoize(memo))"))
+    if "C04init" in props:
+        s.append('''
+// C04 (by-product): the generated package initialises (every Unicode class
+// resolves) and parses without a panic.
+func Harness_C04init(n int) {
+	in := symInput(n, true)
+	o := runReal(in)
+	symNote(outcomeNote(o))
+	symAssert(!o.panicked, "C04: the generated parser panicked")
+	symReach("end")
+}
+''')
+    if "C18" in props:
+        s.append('''
+// C18: ownership discipline that makes concurrent Parse calls independent
+// (engine monitor "ownership": package-level objects are only read, maps are
+// empty when returned to the pool and not used afterwards, Pool.Get returns
+// any pooled map or a fresh one), and a Parse gives the same result whatever
+// ran before it and whichever pooled maps it receives.
+func Harness_C18(n int) {
+	inA := symInputNamed("a", n, true)
+	inB := symInputNamed("b", n, true)
+	symMonitor("ownership")
+	alone := runReal(inB%s)
+	other := runReal(inA%s)
+	again := runReal(inB%s)
+	symNote(outcomeNote(alone) + "/" + outcomeNote(other))
+	symAssert(!alone.panicked && !other.panicked && !again.panicked, "C18: Parse panicked")
+	symAssert(symEqual(alone.v, again.v), "C18: the value of a Parse depends on an earlier Parse in the same process")
+	symAssert(sameStrings(errStrings(alone.err), errStrings(again.err)), "C18: the errors of a Parse depend on an earlier Parse")
+	symAssert(symEqual(alone.tr, again.tr), "C18: the code blocks of a Parse saw different contexts after an earlier Parse")
+	symReach("end")
+}
+''' % ((("", "", "") if g.get("_optimized") else (", Memoize(symBool(\"m1\"))", ", Memoize(symBool(\"m2\"))", ", Memoize(symBool(\"m1\"))"))))
     if "C07b" in props:
         s.append('''
 // C07(b): a parser generated without -support-left-recursion never re-enters
